@@ -3,7 +3,8 @@
    logic of neighbors.cpp and neighborlist.cpp; float32 rounding inside the kernels is not modelled). *)
 From Coq Require Import ZArith List Bool.
 Import ListNotations.
-Require Import MD.Neigh.Model MD.Neigh.Arith MD.Neigh.NeighborsProofs MD.Neigh.NlistProofs.
+Require Import MD.Neigh.Model MD.Neigh.Arith MD.Neigh.NeighborsProofs MD.Neigh.NlistProofs MD.Neigh.Complete
+  MD.Neigh.Complete2 MD.Neigh.CompleteOpen.
 Open Scope Z_scope.
 
 (* compute_neighbors (one frame) = the haystack, in its order, filtered by "some query atom j <> i has
@@ -56,24 +57,98 @@ Theorem neighbors_no_cell : forall cn cd xyz query hay i,
 Proof. exact neighbors_nocell_char. Qed.
 Print Assumptions neighbors_no_cell.
 
-(* compute_neighborlist, as found and repaired: the relation is symmetric, irreflexive, duplicate-free
-   and only mentions existing atoms -- for every input (any cell, any positions) *)
+(* compute_neighborlist, as found: the relation is symmetric, irreflexive, duplicate-free and only
+   mentions existing atoms -- for every input (any cell, any positions) *)
 Theorem nlist_sym_irrefl_nodup : forall cell c xyz i j,
   let N := nlist_cur cell c xyz in
   (In j (nth i N []) -> In i (nth j N [])) /\ ~ In i (nth i N []) /\ NoDup (nth i N []) /\
   (In j (nth i N []) -> (i < length xyz)%nat /\ (j < length xyz)%nat).
-Proof.
-  intros cell c xyz i j N. pose proof (nlist_half_ok cell c xyz) as Hok. unfold N, nlist_cur.
-  split; [exact (complete_sym _ i j Hok)|]. split; [exact (complete_irrefl _ i Hok)|].
-  split; [exact (complete_nodup _ i Hok)|].
-  intros H. rewrite <- (nlist_half_length cell c xyz). exact (complete_range _ i j Hok H).
-Qed.
+Proof. exact nlist_cur_relation. Qed.
 Print Assumptions nlist_sym_irrefl_nodup.
 
 (* every pair found by the voxel search (before symmetric completion: j < i) has a lattice image of its
-   displacement (the plain displacement when there is no cell) of squared length <= cutoff^2 *)
+   displacement (the plain displacement when there is no cell) of squared length <= cutoff^2: nothing
+   beyond the cutoff is ever listed -- any cell (triclinic included), any positions *)
 Theorem nlist_sound : forall cell c xyz i j,
   In j (nth i (nlist_half cell c xyz) []) ->
   (j < i)%nat /\ (i < length xyz)%nat /\ image_within cell c (pos xyz i) (pos xyz j).
 Proof. exact nlist_half_sound. Qed.
 Print Assumptions nlist_sound.
+
+(* no cell: every pair closer than the cutoff is listed (both directions) *)
+Theorem nlist_complete_nopbc : forall c xyz i j,
+  0 < c -> (i < length xyz)%nat -> (j < length xyz)%nat -> i <> j ->
+  norm2 (vsub (pos xyz j) (pos xyz i)) < c * c ->
+  In j (nth i (nlist_cur None c xyz) []).
+Proof. exact nlist_cur_complete_nocell. Qed.
+Print Assumptions nlist_complete_nopbc.
+
+(* orthorhombic cell, cutoff <= half of each edge, all atoms inside the primary cell: every pair whose
+   minimum-image distance is below the cutoff is listed (both directions) *)
+Theorem nlist_complete_ortho_incell : forall B c xyz i j k1 k2 k3,
+  box_ok B -> ortho B -> 0 < c ->
+  2 * c <= b_ax B /\ 2 * c <= b_by B /\ 2 * c <= b_cz B ->
+  (forall k, (k < length xyz)%nat -> in_cell B (pos xyz k)) ->
+  (i < length xyz)%nat -> (j < length xyz)%nat -> i <> j ->
+  norm2 (vsub (vsub (pos xyz j) (pos xyz i)) (lat B k1 k2 k3)) < c * c ->
+  In j (nth i (nlist_cur (Some B) c xyz) []).
+Proof. exact nlist_cur_complete_ortho_incell. Qed.
+Print Assumptions nlist_complete_ortho_incell.
+
+(* Full statement "the same without the in-cell hypothesis" is FALSE of the code as found: two atoms 0.195 nm
+   apart (one of them one cell up in y), cutoff 1 nm, cubic 4 nm cell -- not listed.  Known defect
+   (neighborlist.cpp never wraps positions into the cell; KNOWN_FINDINGS C10-neighborlist-outside-primary-cell). *)
+Theorem nlist_complete_outside_cell_refuted :
+  exists B c xyz i j k1 k2 k3,
+    box_ok B /\ ortho B /\ 0 < c /\ (2 * c <= b_ax B /\ 2 * c <= b_by B /\ 2 * c <= b_cz B) /\
+    (i < length xyz)%nat /\ (j < length xyz)%nat /\ i <> j /\
+    norm2 (vsub (vsub (pos xyz j) (pos xyz i)) (lat B k1 k2 k3)) < c * c /\
+    ~ In j (nth i (nlist_cur (Some B) c xyz) []).
+Proof. exact nlist_cur_outside_cell_counterexample. Qed.
+Print Assumptions nlist_complete_outside_cell_refuted.
+
+(* minimal repair (wrap every position into the primary cell first): complete wherever the atoms sit *)
+Theorem nlist_fixed_complete_ortho : forall B c xyz i j k1 k2 k3,
+  box_ok B -> ortho B -> 0 < c ->
+  2 * c <= b_ax B /\ 2 * c <= b_by B /\ 2 * c <= b_cz B ->
+  (i < length xyz)%nat -> (j < length xyz)%nat -> i <> j ->
+  norm2 (vsub (vsub (pos xyz j) (pos xyz i)) (lat B k1 k2 k3)) < c * c ->
+  In j (nth i (nlist_fix (Some B) c xyz) []).
+Proof. exact nlist_fix_complete_ortho. Qed.
+Print Assumptions nlist_fixed_complete_ortho.
+
+(* ... and still symmetric, irreflexive, duplicate-free and sound (w.r.t. the original positions), any cell *)
+Theorem nlist_fixed_sym_irrefl_nodup : forall cell c xyz i j,
+  let N := nlist_fix cell c xyz in
+  (In j (nth i N []) -> In i (nth j N [])) /\ ~ In i (nth i N []) /\ NoDup (nth i N []) /\
+  (In j (nth i N []) -> (i < length xyz)%nat /\ (j < length xyz)%nat).
+Proof. exact nlist_fix_relation. Qed.
+Print Assumptions nlist_fixed_sym_irrefl_nodup.
+
+Theorem nlist_fixed_sound : forall cell c xyz i j,
+  In j (nth i (nlist_half_fix cell c xyz) []) ->
+  (j < i)%nat /\ (i < length xyz)%nat /\ image_within cell c (pos xyz i) (pos xyz j).
+Proof. exact nlist_half_fix_sound. Qed.
+Print Assumptions nlist_fixed_sound.
+
+(* PARTIAL: completeness of the voxel list for TRICLINIC cells (atoms in the primary cell) is not proved;
+   the triclinic branch of getNeighbors is modelled faithfully (Model.vox_range) and the statement
+     forall B c xyz i j k, box_ok B -> half_width_ok B c 1 -> (all atoms in [0,ax)x[0,by)x[0,cz)) ->
+       norm2 (pos j - pos i - lat (reduce_box B) k) < c*c -> In j (nth i (nlist_cur (Some B) c xyz) [])
+   is only exercised by the correspondence run (triclinic frames, exact oracle). *)
+
+(* non-vacuity of the hypothesis sets *)
+Example ortho_incell_hypotheses_satisfiable :
+  box_ok example_box /\ ortho example_box /\ 0 < 1024 /\
+  (2 * 1024 <= b_ax example_box /\ 2 * 1024 <= b_by example_box /\ 2 * 1024 <= b_cz example_box) /\
+  (forall k, (k < length example_xyz)%nat -> in_cell example_box (pos example_xyz k)) /\
+  norm2 (vsub (vsub (pos example_xyz 1) (pos example_xyz 0)) (lat example_box 1 0 1)) < 1024 * 1024 /\
+  In 1%nat (nth 0 (nlist_cur (Some example_box) 1024 example_xyz) []).
+Proof. exact example_hyps. Qed.
+Print Assumptions ortho_incell_hypotheses_satisfiable.
+
+Example triclinic_half_width_hypotheses_satisfiable :
+  box_ok example_tric /\ offdiag_nonzero example_tric = true /\ half_width_ok example_tric 1900 1 /\
+  In 1%nat (neighbors_frame (Some example_tric) 1900 1 [(100, 2200, 100); (600 + 1700, 2500 + 1200, 300 + 4500)] [0%nat] [1%nat]).
+Proof. exact example_tric_hyps. Qed.
+Print Assumptions triclinic_half_width_hypotheses_satisfiable.
